@@ -72,7 +72,15 @@ def run(ctx):
     # R13.4: the -fwide-types build carries object-set identifier cells as INTEGER_t literals, the native build as long
     # constants; the literal must denote the same number (rule R18.2 evaluated for this property)
     from . import c18
-    return [r, r2, r13_3(ctx.prog("S"), tab), c18.r18_2(prog, rid="R13.4"), r13_5(prog, tab, scope)]
+    return [r, r2, r13_3(ctx.prog("S"), tab), c18.r18_2(prog, rid="R13.4"), r13_5(prog, tab, scope), _r13_6(ctx)]
+
+
+def _r13_6(ctx):
+    """The wide (-fwide-types) codecs of ENUMERATED/INTEGER are wrappers around the native ones and convert with the
+    *2INTEGER helpers; the two builds agree only if the value keeps its signedness at those calls (rule R16.3 evaluated
+    for this property)."""
+    from . import c16
+    return c16.r16_3(ctx.prog("S"), rid="R13.6")
 
 
 def r13_5(prog, tab, scope=None):
